@@ -211,7 +211,7 @@ pub fn monitor_c05() -> super::Monitor {
 pub fn monitor_c13() -> super::Monitor {
     super::Monitor {
         id: "C13",
-        rule: "(S) between an answer D of Interface::poll_at and the next frame reception or socket/interface call, no poll at an instant before D (any instant when D is None) may transmit a frame: judged on extra polls inserted at random instants in [now, D) - first, last and interior instants - and on the drivers' own early polls; (N) after a poll that neither received nor transmitted a frame on a device that hands out tokens, poll_at must be None or strictly later than that poll's timestamp. Drivers: the two-endpoint TCP simulation (probes built in: all timers, retransmission, delayed ACK, keep-alive, zero-window probes, TIME-WAIT) and, through a probe that rides inside the simulated host (sim/hostprobe.rs, mutable accesses to the socket set and the interface are tracked), the datagram-socket, egress-fragmentation, neighbor-discovery, DHCP, DNS/mDNS drivers and the scenario families with SLAAC on and off, with and without router advertisements. A class is driver x (S|N) x how the poll came about x deadline kind, plus the kind of frame a timer produced after a probed wait.",
+        rule: "(S) between an answer D of Interface::poll_at and the next frame reception or socket/interface call, no poll at an instant before D (any instant when D is None) may transmit a frame: judged on extra polls inserted at random instants in [now, D) - first, last and interior instants - and on the drivers' own early polls; (N) after a poll that neither received nor transmitted a frame on a device that hands out tokens, poll_at must be None or strictly later than that poll's timestamp; (D) Interface::poll_delay asked at the same instant equals the distance to the poll_at answer (zero if due, None if None). Drivers: the two-endpoint TCP simulation (probes built in: all timers, retransmission, delayed ACK, keep-alive, zero-window probes, TIME-WAIT) and, through a probe that rides inside the simulated host (sim/hostprobe.rs, mutable accesses to the socket set and the interface are tracked), the datagram-socket, egress-fragmentation, neighbor-discovery, DHCP, DNS/mDNS drivers and the scenario families with SLAAC on and off, with and without router advertisements. A class is driver x (S|N) x how the poll came about x deadline kind, plus the kind of frame a timer produced after a probed wait.",
         assumptions: &[
             "IGMP/MLD report frames are outside the claim and ignored",
             "'no socket calls in between' is enforced by construction: an interval is judged only if neither the SocketSet nor the Interface was borrowed mutably since poll_at was asked",
@@ -229,6 +229,7 @@ pub fn monitor_c13() -> super::Monitor {
             ("runs_dhcp", 1_000),
             ("runs_dns", 1_000),
             ("runs_scen-mcast-slaac", 200),
+            ("poll_delay_compared_with_poll_at", 100_000),
         ],
         parts: vec![super::Part { name: "tcp-pair", cases: |c| c.n(15_000, 300_000), f: c13_case }],
         post: None,
